@@ -61,6 +61,7 @@ struct Spec {
     bool records = false; long record_every = 1;
     std::vector<std::pair<unsigned, unsigned>> below;
     std::vector<std::pair<unsigned, unsigned>> flat;     // tags flattened by the category dictionary: constrained <= -200 (exp underflows to 0), no lower bound
+    struct Eq { char kind; unsigned i, j; long v; }; std::vector<Eq> eq;   // cells held at a stated integer value (a slice of the matrix space; the cell stays a solver variable)
     long lo = 0; bool has_lo = false;                     // lower bound of the other tag scores (keeps exp away from underflow)   // tags constrained below every other tag of their word (a partition piece of the matrix space)
 };
 static Spec S;
@@ -76,6 +77,7 @@ static void read_spec(const char *path) {
         else if (k == "unary") { Spec::Rule r; in >> r.x >> r.cat >> r.label; r.y = UINT_MAX; r.head_left = true; S.unary.push_back(r); }
         else if (k == "flat") { unsigned i, c; in >> i >> c; S.flat.push_back({i, c}); }
         else if (k == "lo") { in >> S.lo; S.has_lo = true; }
+        else if (k == "eq") { Spec::Eq e; in >> e.kind >> e.i >> e.j >> e.v; S.eq.push_back(e); }
         else if (k == "below") { unsigned i, c; in >> i >> c; S.below.push_back({i, c}); }
         else if (k == "records") in >> S.records; else if (k == "record_every") in >> S.record_every;
         else if (k == "checks") { std::string v; in >> v; S.check_opt = v.find('o') != std::string::npos; S.check_mono = v.find('m') != std::string::npos; S.check_score = v.find('s') != std::string::npos; S.check_nbest = v.find('n') != std::string::npos; S.check_beam = v.find('b') != std::string::npos; }
@@ -259,6 +261,7 @@ int main(int argc, char **argv) {
             if (fl) E.solver->add(E.vars[tv[i][c]] <= -200);
             else if (S.has_lo) E.solver->add(E.vars[tv[i][c]] >= E.ctx.int_val((int64_t)S.lo));
         }
+        for (auto &e : S.eq) E.solver->add(E.vars[e.kind == 't' ? tv[e.i][e.j] : dv[e.i][e.j]] == E.ctx.int_val((int64_t)e.v));
         std::vector<Float> tag(n * T), dep(n * (n + 1));
         for (unsigned i = 0; i < n; i++) for (unsigned c = 0; c < T; c++) tag[i * T + c] = Float::var(tv[i][c]);
         for (unsigned i = 0; i < n; i++) for (unsigned h = 0; h <= n; h++) dep[i * (n + 1) + h] = Float::var(dv[i][h]);
